@@ -238,12 +238,13 @@ class IncrementalPublisher:
                 )
         elif isinstance(event, GroupFailureEvent):
             group = cast("DeliveryGroup", event.group)
-            context.completed.append(
-                CompletedResult(
-                    self._ensure_id(group), [ensure_graphql_error(event.error)]
+            id_ = self._ids.pop(group, None)
+            # A group that has not been announced as pending yet (a nested group sharing
+            # a failed task with an already started group) cannot be completed.
+            if id_ is not None:
+                context.completed.append(
+                    CompletedResult(id_, [ensure_graphql_error(event.error)])
                 )
-            )
-            del self._ids[group]
         elif isinstance(event, StreamValuesEvent):
             stream = cast("ItemStream", event.stream)
             id_ = self._ensure_id(stream)
